@@ -4,8 +4,8 @@ CONSTANTS
   INames <- MCINames
   ITypes = {0, 1, 2, 4}
   IParents <- MCIParents
-  MaxNamed = 6
-  MaxOpsI = 6
+  MaxNamed = 5
+  MaxOpsI = 0
   GrowBug = TRUE
   MaxLabelName = 2
 INVARIANT IInv
